@@ -44,7 +44,7 @@ Inductive outcome := OOk | OFail (mask : list bool).
 Record config := { max_size : nat;        (* ingest.max_buffer_size (rows) *)
                    queue_cap : nat;       (* ingest.flush_queue_size *)
                    wal_on : bool;
-                   fix_drain : bool }.    (* false: Close as it is; true: Close drains the queue after wg.Wait *)
+                   fix_drain : bool }.    (* true: the code (Close drains the queue after wg.Wait, since 2ed39c6); false: the Close before that fix *)
 
 Section Protocol.
   Context {K B Sg F : Type}.
@@ -157,7 +157,9 @@ Section Protocol.
   (* the flush of a carried task finishes *)
   Definition complete (s : st) (t : task) (o : outcome) : option st :=
     match flushf (map it_b (t_items t)) with
-    | FlPanic => Some (set_out s (stored s) (dropped s ++ [(t, DPanic)]) (flush_failed s) true)
+    (* a panic inside merge / encode is recovered by flushRecordsAsync / flushRecovered and
+       treated like a flush error (markFlushFailure); before 763beab it killed the process *)
+    | FlPanic => Some (set_out s (stored s) (dropped s ++ [(t, DPanic)]) true (crashed s))
     | FlErr => Some (set_out s (stored s) (dropped s ++ [(t, DMergeErr)]) true (crashed s))
     | FlOk files =>
         match o with
@@ -199,7 +201,8 @@ Section Protocol.
   | LPurgeAll                                (* Writer.PurgeAll (shutdown hook wal-purge) *)
   | LReplayStart (i : nat)                   (* maintenance tick with hasFlushFailure: Recovery picks rotated file i *)
   | LReplayEntry                             (* callback -> WriteColumnarDirectNoWAL of the next entry *)
-  | LReplayFileDone                          (* all entries replayed: os.Remove(file) *)
+  | LReplayFileDone                          (* all entries replayed (and, since 7b9e05e, FlushReplayed succeeded): os.Remove(file) *)
+  | LReplayFileKeep (i : nat) (a : age_t)    (* all entries replayed but FlushReplayed failed: the file stays (position i, age a) *)
   | LResetFlag                               (* ResetFlushFailure *)
   | LRestart.                                (* process exit + start: volatile state is gone, startup recovery is enabled *)
 
@@ -292,6 +295,12 @@ Section Protocol.
         | ([], _) :: more => Some (set_wal s (wal_active s) (wal_files s) more)
         | _ => None
         end
+    | LReplayFileKeep i a =>
+        match replaying s with
+        | ([], all) :: more =>
+            Some (set_wal s (wal_active s) (firstn i (wal_files s) ++ {| w_entries := all; w_age := a |} :: skipn i (wal_files s)) more)
+        | _ => None
+        end
     | LResetFlag =>
         if flush_failed s && is_nil (replaying s)
         then Some (set_out s (stored s) (dropped s) false (crashed s))
@@ -332,7 +341,7 @@ Section Protocol.
 
   (* labels of the fragment without the WAL replay / restart machinery (C03) *)
   Definition no_replay (l : label) : bool :=
-    match l with LReplayStart _ | LReplayEntry | LReplayFileDone | LRestart => false | _ => true end.
+    match l with LReplayStart _ | LReplayEntry | LReplayFileDone | LReplayFileKeep _ _ | LRestart => false | _ => true end.
   Definition outcome_ok (l : label) : bool :=
     match l with LDone _ (OFail _) => false | _ => true end.
 End Protocol.
